@@ -162,8 +162,18 @@ func (t Tags) Bytes() []byte {
 	sort.Strings(names)
 
 	for i := 0; i < len(names); i++ {
-		// Trim at max allowed chars.
-		if (buffer.Len() + len(names[i]) + len(t[names[i]]) + 2) > maxTagLength {
+		// Trim at max allowed chars, counting exactly what would be written:
+		// the name, "=" and the value if there is one, and the separator if
+		// another tag follows.
+		size := len(names[i])
+		if len(t[names[i]]) > 0 {
+			size += 1 + len(t[names[i]])
+		}
+		if current < max-1 {
+			size++
+		}
+
+		if buffer.Len()+size > maxTagLength {
 			return buffer.Bytes()
 		}
 
